@@ -721,15 +721,25 @@ func classifyDeadlock(b *bench, rep *common.DeadlockReport, prop string) (sig, w
 		}
 		return prop + "/goroutine-leak/" + frame, "goroutines of package rpc still alive (and parked for good) after Close returned: " + frame
 	}
-	if _, ok := b.ops.has("await:"); ok {
+	{
 		// Decide with a fresh look: the system is quiescent, so nobody can
-		// legitimately be holding either lock.
+		// legitimately be holding either lock - whatever operation happens
+		// to be pending, a held lock is the root cause.
 		st := b.snapshot()
+		cls := scenarioClass(b.scenario) + "/" + b.act()
+		if prop == "C08" {
+			// <message kind>/<history class>
+			hc := "after-hostile-item"
+			if b.act() == "before-injection" {
+				hc = "healthy-history"
+			}
+			cls = b.act() + "/" + hc
+		}
 		if !st.Locked {
-			return prop + "/mutex-leaked/" + scenarioClass(b.scenario) + "/" + b.act(), "Conn.mu is held although no Conn method is executing (step " + b.curStep() + ")"
+			return prop + "/mutex-leaked/" + cls, "Conn.mu is held although no Conn method is executing (step " + b.curStep() + ")"
 		}
 		if st.SenderLockHeld {
-			return prop + "/sender-lock-leaked/" + scenarioClass(b.scenario) + "/" + b.act(), "sender lock is held although no Conn method is executing (step " + b.curStep() + ")"
+			return prop + "/sender-lock-leaked/" + cls, "sender lock is held although no Conn method is executing (step " + b.curStep() + ")"
 		}
 	}
 	if n, ok := b.ops.has("close:"); ok {
